@@ -257,6 +257,8 @@ def gen_session(rng, n_steps, faults=False, cancel=True, with_drop=False, pauses
     labels = ["D0"]
     if rng.random() < 0.3:
         labels.insert(0, "k" + str(rng.choice([1, 3, 7, 16, 24])))     # the transport takes only a few bytes per write
+    if pauses and rng.random() < 0.1:
+        labels += ["S*", "Z"]      # the application drops its ConnectionEvents for good (the requests must go on being answered)
     info = {"requests": {}, "cancelled": set(), "notified": [], "fault": None, "dropped": False}
     rid = 0
     live = []
@@ -315,6 +317,10 @@ def gen_session(rng, n_steps, faults=False, cancel=True, with_drop=False, pauses
             labels.append(f"x{c}")
         else:
             labels.append(rng.choice(["S*", "D0"]))
+    if "Z" in labels:
+        # once the event stream is dropped there is nothing to stop or resume polling (the model treats Z as a q that is never undone)
+        z = labels.index("Z")
+        labels = labels[:z + 1] + [l for l in labels[z + 1:] if l not in ("q", "Q")]
     return labels, info, rid
 
 
